@@ -530,13 +530,13 @@ EditSteps(i, steps, j, prev) ==
                        IN /\ AllTrue({
                                IF SameContent(ApplyOp(before, o), after) THEN TRUE
                                \* known finding F20: a dotted-key table that loses its last key vanishes from the printed document
-                               ELSE IF o.op = "remove" /\ GetAt(ApplyOp(before, o), o.path).v = <<>>
+                               ELSE IF o.op \in {"remove", "clear"} /\ GetAt(ApplyOp(before, o), o.path).v = <<>>
                                        /\ SameContent(DropEmptyTables(ApplyOp(before, o)), DropEmptyTables(after))
                                     THEN Report(i, "edit-content-emptied-table-vanishes", [step |-> j, op |-> o.op, path |-> o.path, key |-> o.key]) /\ FALSE
                                ELSE Report(i, "edit-content", [step |-> j, op |-> o.op, path |-> o.path, key |-> o.key, text |-> st.text]) /\ FALSE,
                                \* a replaced key whose value changes between table and value has to move (values precede tables)
                                IF o.op = "sort_values" \/ SurvivorsOrdered(before, after)
-                                  \/ (o.op = "insert" /\ GetAt(before, Append(o.path, o.key)).k \in {"t", "a"}
+                                  \/ ((o.op \in {"to_inline", "to_table"} \/ (o.op = "insert" /\ GetAt(before, Append(o.path, o.key)).k \in {"t", "a"}))
                                       /\ SurvivorsOrdered(ApplyOp(before, [o EXCEPT !.op = "remove"]), ApplyOp(after, [o EXCEPT !.op = "remove"])))
                                THEN TRUE
                                ELSE Report(i, "edit-order", [step |-> j, op |-> o.op, path |-> o.path, key |-> o.key, text |-> st.text]) /\ FALSE,
